@@ -836,6 +836,23 @@ func (root *Root) formReflectArgs(
 		return nil, []error{resWarn(field.line, field.col,
 			"the method for %s takes %d arguments but the field has %d", field.Name, mt.NumIn()-1, len(fd.args.list))}
 	}
+	// The method was found on the Go type the object type is bound to. The
+	// object itself can be a value where that is a pointer, or the other way
+	// around, or of another Go type altogether if the application uses more
+	// than one for the object type. Calling the method with it would panic.
+	if rt := mt.In(0); ov.Type() != rt {
+		switch {
+		case rt.Kind() == reflect.Ptr && ov.Type() == rt.Elem():
+			pv := reflect.New(rt.Elem())
+			pv.Elem().Set(ov)
+			ov = pv
+		case ov.Kind() == reflect.Ptr && !ov.IsNil() && ov.Type().Elem() == rt:
+			ov = ov.Elem()
+		default:
+			return nil, []error{resWarn(field.line, field.col,
+				"%s can not be resolved on a %s, the method for it is for a %s", field.Name, ov.Type(), rt)}
+		}
+	}
 	args = make([]reflect.Value, 0, mt.NumIn())
 	args = append(args, ov)
 	// Build the args in the order of the field definition by combining
